@@ -4,7 +4,6 @@ from . import analysis as A
 # mutating std::fs primitives -> the only functions allowed to call them (confirmed by reading), with the reason
 MUTATORS = {
     "std::fs::File::create_new": {
-        "db::Database::create_new": "version marker of a fresh database",
         "journal::writer::Writer::create_new": "new journal file",
         "locked_file::LockedFileGuard::create_new": "lock file of a fresh database",
     },
@@ -32,12 +31,19 @@ MUTATORS = {
         "recovery::recover_keyspaces": "unreferenced / uninitialised keyspace folders",
     },
     "std::fs::remove_file": {
+        "db::Database::create_new": "the never-used first journal of a creation that was interrupted before its version marker (resumed under the lock)",
         "<keyspace::KeyspaceInner as std::ops::Drop>::drop": "manifest of a deleted keyspace (before the folder)",
         "journal::manager::JournalManager::maintenance": "fully flushed sealed journal",
     },
+    "std::fs::File::create": {
+        "db::Database::create_new": "version marker of a fresh database, under its temporary name",
+    },
+    "std::fs::rename": {
+        "db::Database::create_new": "the complete version marker is renamed into place",
+    },
 }
 # mutating primitives nobody may call today
-FORBIDDEN = ("std::fs::rename", "std::fs::write", "std::fs::File::create", "std::fs::remove_dir", "std::fs::copy",
+FORBIDDEN = ("std::fs::write", "std::fs::remove_dir", "std::fs::copy",
              "std::fs::hard_link", "std::fs::create_dir", "std::fs::File::options", "std::fs::set_permissions",
              "std::fs::File::set_permissions", "std::fs::File::set_times", "std::fs::File::set_modified",
              "std::fs::OpenOptions::truncate", "std::fs::OpenOptions::create", "std::os::unix::fs::symlink",
